@@ -1,6 +1,7 @@
 import Bng.Drv.Common
 import Bng.Model.Qinq
 import Bng.Model.KeySpec
+import Bng.Model.QinqMonitor
 /-
   bngdrv component `qinq`: replays traces of the real qinq.Mapper on the model and runs the key monitor (C20).
 
@@ -19,8 +20,6 @@ open Bng Bng.Drv Bng.Qinq
 structure St where
   model : Option Qinq.State := none
   mon : KeySpec.Mon := {}
-
-def keyOf (p : Pair) : Nat := p.1 * 65536 + p.2
 
 def showObs : Obs → String
   | .ok => "ok"
@@ -67,22 +66,23 @@ def parseRev (s : String) : Option (List (Nat × Nat)) :=
     | [p, k] => do let k ← parseTagged 's' k; let p ← parsePairDot p; pure (keyOf p, k)
     | _ => none
 
-def event (c : Cfg) (op : Op) (impl : String) : KeySpec.Ev :=
+/-- the implementation's answer as a typed observation (what `showObs` prints, read back in the context of the op) -/
+def parseObs (op : Op) (impl : String) : Option Obs :=
   match op, splitTokens impl with
-  | .register p k, ["ok"] => .gave k (keyOf p) (valid c p) false
-  | .register p k, ["conflict"] => .refused k (keyOf p)
-  | .register _ _, _ => .failed
-  | .unregister p, ["ok"] => .releasedKey (keyOf p)
-  | .unregisterSub k, ["ok"] => .released k
-  | .getSubscriber p, ["none"] => .rev (keyOf p) none
-  | .getSubscriber p, [k] => match parseTagged 's' k with
-      | some k => .rev (keyOf p) (some k)
-      | none => .nop
-  | .getVLAN k, ["none"] => .fwd k none
-  | .getVLAN k, [p] => match parsePairDot p with
-      | some p => .fwd k (some (keyOf p))
-      | none => .nop
-  | _, _ => .nop
+  | _, ["ok"] => some .ok
+  | _, ["range"] => some .range
+  | _, ["conflict"] => some .conflict
+  | _, ["none"] => some .none
+  | .getSubscriber _, [k] => (parseTagged 's' k).map .sub
+  | .getVLAN _, [p] => (parsePairDot p).map fun p => .pair p.1 p.2
+  | _, _ => none
+
+/-- the monitor event of one operation: `Qinq.eventOf` (Model/QinqMonitor.lean, the function
+    `Spec.C20QinqMon.monitor_silent_on_model` is about) on the parsed answer -/
+def event (c : Cfg) (op : Op) (impl : String) : KeySpec.Ev :=
+  match parseObs op impl with
+  | some o => eventOf c op o
+  | none => .nop
 
 def step (st : St) (toks : List String) (impl : String) : St × LineResult :=
   match toks with
